@@ -271,6 +271,22 @@ example : Init dia := by
       rfl
     | n+4 => simp [dia] at hs
 
+/-- a concrete interleaved execution of the locked system (hypothesis `Exec` of `linearizable`):
+    client 0 invokes `Artifact(3)`, client 1 invokes and completes `UpdateParameter(0, 10)` first,
+    then client 0 runs; the recorded history overlaps and the artifact is the post-update value -/
+example : ∃ s : Sys Nat, Exec dia s ∧
+    s.hist = [.inv 0 0 (.artifact 3), .inv 1 1 (.update 0 10), .resp 1 .ok, .resp 0 (.val 23)] ∧
+    s.lin.map (·.id) = [1, 0] ∧ s.lock = none := by
+  refine ⟨_, .step (.step (.step (.step (.step (.step (.step (.step (.step (.step .init
+    (.invoke _ 0 (.artifact 3) rfl)) (.invoke _ 1 (.update 0 10) rfl))
+    (.acquire _ 1 1 (.update 0 10) rfl rfl)) (.exec _ 1 1 (.update 0 10) rfl))
+    (.release _ 1 1 (.update 0 10) .ok rfl)) (.respond _ 1 1 (.update 0 10) .ok rfl))
+    (.acquire _ 0 0 (.artifact 3) rfl rfl)) (.exec _ 0 0 (.artifact 3) rfl))
+    (.release _ 0 0 (.artifact 3) (.val 23) rfl)) (.respond _ 0 0 (.artifact 3) (.val 23) rfl), ?_, ?_, ?_⟩
+  · decide
+  · rfl
+  · rfl
+
 /-- the sequential witness `[update, artifact]` passes the executable check for the overlapping
     history in which the update's response precedes the artifact's -/
 example : checkWitness dia
